@@ -50,7 +50,13 @@ def run(tier, seed):
     N = 1600 if thorough else 420
     for _ in range(N):
         d = rnd.choice([1, 2, 3, 4, 5])
-        node = distgen.tree(rnd, d, rnd.choice([0, 1, 2, 3]))
+        try:
+            node = distgen.tree(rnd, d, rnd.choice([0, 1, 2, 3]))
+        except Exception as e:      # constructing a legal expression must not raise
+            st.case({"construct": repr(e)}, nontrivial=False)
+            st.disagree({"construct": True}, "constructible", repr(e), "constructor raised")
+            findings.append(Finding("C05", f"constructing a distribution raised {e!r}", {"kind": "construct"}, {"error": repr(e)}))
+            continue
         x = distgen.point(rnd, node)
         with np.errstate(all="ignore"), quiet():
             try:
